@@ -113,9 +113,7 @@ def propagate_new_aliases(tree: ast.Module, modname: str, log: List[str]) -> Non
     if ref is None:
         return
     for q, fn in list(_defs_with_quals(tree)):
-        if q not in ref:
-            continue
-        known = set(ref[q]) | {a.arg for a in fn.args.args + fn.args.kwonlyargs + fn.args.posonlyargs} | ({fn.args.vararg.arg} if fn.args.vararg else set()) | ({fn.args.kwarg.arg} if fn.args.kwarg else set())
+        known = set(ref.get(q, [])) | {a.arg for a in fn.args.args + fn.args.kwonlyargs + fn.args.posonlyargs} | ({fn.args.vararg.arg} if fn.args.vararg else set()) | ({fn.args.kwarg.arg} if fn.args.kwarg else set())
         changed = True
         while changed:
             changed = False
@@ -135,14 +133,23 @@ def propagate_new_aliases(tree: ast.Module, modname: str, log: List[str]) -> Non
                         if not isinstance(tg, ast.Name) or tg.id in known or tg.id.startswith("_inl") or len(stores.get(tg.id, [])) != 1:
                             continue
                         v = a.value
-                        chain = v
-                        while isinstance(chain, ast.Attribute):
-                            chain = chain.value
-                        if not isinstance(chain, ast.Name) or not isinstance(v, (ast.Attribute, ast.Name)) or chain.id == tg.id or chain.id in stores:
+
+                        def plain(e_: ast.AST) -> bool:
+                            """a name / attribute chain nothing here rebinds or stores into (or a constant)"""
+                            if isinstance(e_, ast.Constant):
+                                return True
+                            c_ = e_
+                            while isinstance(c_, ast.Attribute):
+                                c_ = c_.value
+                            if not isinstance(c_, ast.Name) or not isinstance(e_, (ast.Attribute, ast.Name)) or c_.id == tg.id or c_.id in stores:
+                                return False
+                            t_ = ast.unparse(e_)
+                            return not any(t_ == sa or t_.startswith(sa + ".") or sa.startswith(t_ + ".") for sa in stored_attrs)
+                        if isinstance(v, ast.Tuple) and v.elts and all(plain(x_) for x_ in v.elts) and not all(isinstance(x_, ast.Constant) for x_ in v.elts):
+                            pass        # a pair of such values: (key, value)
+                        elif isinstance(v, ast.Constant) or not plain(v):
                             continue
                         txt = ast.unparse(v)
-                        if any(txt == sa or txt.startswith(sa + ".") or sa.startswith(txt + ".") for sa in stored_attrs):
-                            continue
                         uses = [n for n in ast.walk(fn) if isinstance(n, ast.Name) and n.id == tg.id and isinstance(n.ctx, ast.Load)]
                         later = {id(n) for b in blk[i + 1:] for n in ast.walk(b)}
                         in_scope = {id(n) for n in scope}
@@ -167,6 +174,29 @@ def propagate_new_aliases(tree: ast.Module, modname: str, log: List[str]) -> Non
                 if changed:
                     break
     ast.fix_missing_locations(tree)
+
+
+class _Canon(ast.NodeTransformer):
+    """two spellings with one meaning, written the way the reference tree writes them: getattr(x, "name") is x.name;
+    `not (a is b)` is `a is not b` (likewise `is not`, `in`, `not in`)"""
+    def __init__(self, log: List[str], modname: str) -> None:
+        self.log, self.modname, self.n = log, modname, 0
+
+    def visit_Call(self, c: ast.Call):
+        self.generic_visit(c)
+        if isinstance(c.func, ast.Name) and c.func.id == "getattr" and len(c.args) == 2 and not c.keywords and isinstance(c.args[1], ast.Constant) \
+                and isinstance(c.args[1].value, str) and c.args[1].value.isidentifier() and not c.args[1].value.startswith("__"):
+            self.n += 1
+            return ast.copy_location(ast.Attribute(value=c.args[0], attr=c.args[1].value, ctx=ast.Load()), c)
+        return c
+
+    def visit_UnaryOp(self, u: ast.UnaryOp):
+        self.generic_visit(u)
+        if isinstance(u.op, ast.Not) and isinstance(u.operand, ast.Compare) and len(u.operand.ops) == 1 and isinstance(u.operand.ops[0], (ast.Is, ast.IsNot, ast.In, ast.NotIn)):
+            flip = {ast.Is: ast.IsNot, ast.IsNot: ast.Is, ast.In: ast.NotIn, ast.NotIn: ast.In}[type(u.operand.ops[0])]
+            self.n += 1
+            return ast.copy_location(ast.Compare(left=u.operand.left, ops=[flip()], comparators=u.operand.comparators), u)
+        return u
 
 
 class NotInlinable(Exception):
@@ -710,8 +740,22 @@ class Inliner:
                 return False
             return inside_repeated(h, u) is False
         impure = [p_ for p_, x_ in bound.items() if not _pure_arg(x_)]
+        # several impure arguments of an expression helper: fine when each parameter is read exactly once, in the order in which
+        # the call evaluates the arguments (so every argument is still evaluated once and in the same order)
+        ordered_ok = False
+        hb_ = _strip_doc(h.body)
+        if len(impure) > 1 and len(hb_) == 1 and isinstance(hb_[0], ast.Return) and all(p_ not in stored and single_straight_use(p_) for p_ in impure) \
+                and not any(isinstance(n, (ast.Yield, ast.YieldFrom, ast.Await, ast.NamedExpr)) for p_ in impure for n in ast.walk(bound[p_])):
+            pos_ = {}
+            for n in ast.walk(hb_[0]):
+                if isinstance(n, ast.Name) and n.id in impure and isinstance(n.ctx, ast.Load):
+                    pos_[n.id] = (n.lineno, n.col_offset)
+            call_order = [p_ for p_ in bound if p_ in impure]
+            ordered_ok = sorted(call_order, key=lambda p_: pos_.get(p_, (0, 0))) == call_order and len(pos_) == len(impure)
         for p, x in bound.items():
             if p not in stored and _pure_arg(x):
+                subst[p] = x
+            elif ordered_ok and p in impure:
                 subst[p] = x
             elif p not in stored and len(impure) == 1 and single_straight_use(p) and not any(isinstance(n, (ast.Yield, ast.YieldFrom, ast.Await, ast.NamedExpr)) for n in ast.walk(x)):
                 subst[p] = x  # the only impure argument, evaluated once where the parameter was read once
@@ -1537,6 +1581,11 @@ def normalize(tree: ast.Module, modname: str) -> Tuple[ast.Module, List[str]]:
     try:
         out = inl.run()
         propagate_new_aliases(out, modname, inl.log)
+        cn = _Canon(inl.log, modname)
+        out = cn.visit(out)
+        ast.fix_missing_locations(out)
+        if cn.n:
+            inl.log.append(f"{modname}: {cn.n} expression(s) respelled (getattr(x, 'name') -> x.name; not (a is b) -> a is not b)")
         # the result must still be a valid program
         import warnings
         with warnings.catch_warnings():
